@@ -91,7 +91,7 @@ func (values SortValues) Serialize(buf *bytes.Buffer) {
 				serializeFloat(buf, value.Float64ToStr(val.Float, false))
 			}
 		case DatetimeType:
-			serializeDatetimeFromUnixNano(buf, val.Datetime)
+			serializeInstant(buf, val.datetimeSec, val.datetimeNsec)
 		case StringType:
 			serializeString(buf, val.String)
 		}
@@ -107,6 +107,11 @@ type SortValue struct {
 	Float    float64
 	Datetime int64
 	String   string
+
+	// The instant of a datetime in seconds and nanoseconds: Datetime (nanoseconds since the epoch) identifies and
+	// orders instants only between the years 1678 and 2262.
+	datetimeSec  int64
+	datetimeNsec int
 }
 
 func NewSortValue(val value.Primary, flags *option.Flags) *SortValue {
@@ -133,6 +138,8 @@ func NewSortValue(val value.Primary, flags *option.Flags) *SortValue {
 		t := dt.(*value.Datetime).Raw()
 		sortValue.Type = DatetimeType
 		sortValue.Datetime = t.UnixNano()
+		sortValue.datetimeSec = t.Unix()
+		sortValue.datetimeNsec = t.Nanosecond()
 		value.Discard(dt)
 	} else if b := value.ToBoolean(val); !value.IsNull(b) {
 		sortValue.Type = BooleanType
@@ -224,10 +231,13 @@ func (v *SortValue) Less(compareValue *SortValue) ternary.Value {
 	case DatetimeType:
 		switch compareValue.Type {
 		case DatetimeType:
-			if v.Datetime == compareValue.Datetime {
+			if v.datetimeSec == compareValue.datetimeSec && v.datetimeNsec == compareValue.datetimeNsec {
 				return ternary.UNKNOWN
 			}
-			return ternary.ConvertFromBool(v.Datetime < compareValue.Datetime)
+			if v.datetimeSec != compareValue.datetimeSec {
+				return ternary.ConvertFromBool(v.datetimeSec < compareValue.datetimeSec)
+			}
+			return ternary.ConvertFromBool(v.datetimeNsec < compareValue.datetimeNsec)
 		}
 	case StringType:
 		switch compareValue.Type {
@@ -279,7 +289,7 @@ func (v *SortValue) EquivalentTo(compareValue *SortValue) bool {
 	case DatetimeType:
 		switch compareValue.Type {
 		case DatetimeType:
-			return v.Datetime == compareValue.Datetime
+			return v.datetimeSec == compareValue.datetimeSec && v.datetimeNsec == compareValue.datetimeNsec
 		}
 	case BooleanType:
 		switch compareValue.Type {
